@@ -1,6 +1,7 @@
 package sym
 
 import (
+	"runtime"
 	"fmt"
 	"os"
 	"math/big"
@@ -45,6 +46,9 @@ type Explorer struct {
 	C         *smt.Ctx
 	S         *smt.Solver
 	S2        *smt.Solver // optional cross-check solver
+	SoftBranch bool // branch feasibility: a query undecided within SoftMs keeps the branch (both sides explored); reach tags and violations are then confirmed by a full query
+	SoftMs    int
+	Alt       []*smt.Solver // portfolio: asked (in order, before S2) when the primary leaves a query undecided
 	In        *Interp
 	Params    map[string]int
 	MaxSteps  int64
@@ -171,8 +175,25 @@ func (x *Explorer) check(extra []*smt.Term, wantModel bool) (smt.Result, smt.Mod
 	res, m, err := x.S.Check(x.C, as, vars)
 	if branchLog {
 		fmt.Fprintf(os.Stderr, "QUERY %v %.2fs pc=%d\n", res, time.Since(t0).Seconds(), len(x.In.pc))
+		if res == smt.Unknown {
+			buf := make([]byte, 3000)
+			n := runtime.Stack(buf, false)
+			fmt.Fprintf(os.Stderr, "%s\n", buf[:n])
+		}
 	}
 	if err != nil || res == smt.Unknown {
+		for _, a := range x.Alt {
+			t1 := time.Now()
+			res2, m2, err2 := a.Check(x.C, as, vars)
+			if branchLog {
+				fmt.Fprintf(os.Stderr, "QUERY(alt %s) %v %.2fs\n", a.Kind, res2, time.Since(t1).Seconds())
+			}
+			x.S.Stats.Add(a.Stats)
+			a.Stats = &smt.Stats{}
+			if err2 == nil && res2 != smt.Unknown {
+				return res2, m2
+			}
+		}
 		// retry once on a fresh cross-check solver if available
 		if x.S2 != nil {
 			res2, m2, err2 := x.S2.Check(x.C, as, vars)
@@ -196,6 +217,42 @@ func (x *Explorer) check(extra []*smt.Term, wantModel bool) (smt.Result, smt.Mod
 		}
 	}
 	return res, m
+}
+
+// checkSoft: feasibility of pc ∧ extra within the short budget, on the primary solver only; never aborts.
+func (x *Explorer) checkSoft(extra []*smt.Term) smt.Result {
+	as := append(append([]*smt.Term(nil), x.In.pc...), extra...)
+	old := x.S.TimeoutMs
+	ms := x.SoftMs
+	if ms <= 0 {
+		ms = 3000
+	}
+	x.S.SetTimeout(ms)
+	t0 := time.Now()
+	res, _, err := x.S.Check(x.C, as, nil)
+	x.S.SetTimeout(old)
+	if branchLog {
+		fmt.Fprintf(os.Stderr, "QUERY(soft) %v %.2fs pc=%d\n", res, time.Since(t0).Seconds(), len(x.In.pc))
+	}
+	if err != nil {
+		return smt.Unknown
+	}
+	return res
+}
+
+// pathFeasible: full-strength query (portfolio); Unknown is reported, not fatal.
+func (x *Explorer) pathFeasible() (res smt.Result) {
+	defer func() {
+		if r := recover(); r != nil {
+			if _, ok := r.(abortPath); ok {
+				res = smt.Unknown
+				return
+			}
+			panic(r)
+		}
+	}()
+	res, _ = x.check(nil, false)
+	return
 }
 
 func (x *Explorer) nextDecision() (int64, bool) {
@@ -247,13 +304,22 @@ func (in *Interp) branch(c *smt.Term, what string) bool {
 	if branchLog {
 		fmt.Fprintf(os.Stderr, "BRANCH %s\n", what)
 	}
-	rt, _ := x.check([]*smt.Term{c}, false)
+	var rt, rf smt.Result
+	if x.SoftBranch {
+		rt = x.checkSoft([]*smt.Term{c})
+	} else {
+		rt, _ = x.check([]*smt.Term{c}, false)
+	}
 	if rt == smt.Unsat {
 		x.record(0, nil)
 		in.addPC(nc) // implied; keeps known-set useful
 		return false
 	}
-	rf, _ := x.check([]*smt.Term{nc}, false)
+	if x.SoftBranch {
+		rf = x.checkSoft([]*smt.Term{nc})
+	} else {
+		rf, _ = x.check([]*smt.Term{nc}, false)
+	}
 	if rf == smt.Unsat {
 		x.record(1, nil)
 		in.addPC(c)
@@ -289,7 +355,12 @@ func (in *Interp) assume(c *smt.Term) {
 	if in.X.pos < len(in.X.prefix) {
 		return // replaying: feasibility known
 	}
-	r, _ := in.X.check(nil, false)
+	var r smt.Result
+	if in.X.SoftBranch {
+		r = in.X.checkSoft(nil)
+	} else {
+		r, _ = in.X.check(nil, false)
+	}
 	if r == smt.Unsat {
 		panic(pathEnd{"assumption infeasible"})
 	}
@@ -475,6 +546,9 @@ func (x *Explorer) runOne(entry func()) (stop bool) {
 				}()
 				model = x.modelForPath()
 			}()
+			if x.SoftBranch && model == nil && x.pathFeasible() == smt.Unsat {
+				return // a panic on a path kept only because its feasibility was undecided
+			}
 			func() {
 				defer func() { recover() }()
 				x.violation("panic", e.desc, model)
